@@ -476,6 +476,52 @@ fn boundary_stream(ipfix: bool, i: u64) -> (Vec<Vec<u8>>, Vec<u8>) {
     (calls, protos)
 }
 
+/// value menu of projected field `which` (class menu of alphabet.rs: thresholds, special addresses, all 256 protocols)
+fn menu_values(ipfix: bool, which: usize) -> Vec<Vec<u8>> {
+    let f = fs(SPECS[which].0, SPECS[which].1);
+    let c = if ipfix { class_ipfix(&f) } else { class_v9(f.ty) };
+    crate::alphabet::values(c, f.len as usize)
+}
+const MENU_MAX: u64 = 256;
+
+/// record 1 of a two-record data set holds value `vi` of the menu in projected field `which`; three template shapes
+fn value_stream(ipfix: bool, i: u64) -> Option<(Vec<Vec<u8>>, Vec<u8>)> {
+    let d = digits(i, &[11, MENU_MAX, 3]);
+    let which = d[0] as usize;
+    let vals = menu_values(ipfix, which);
+    let value = vals.get(d[1] as usize)?.clone();
+    let target = fs(SPECS[which].0, SPECS[which].1);
+    let fields: Vec<FieldSpec> = match d[2] {
+        0 => subset_fields(3, 3, 127, 0),
+        1 => {
+            let (sa, da) = if which == 1 || which == 3 { (2, 2) } else { (1, 1) };
+            subset_fields(sa, da, 127, 1)
+        }
+        _ => vec![target, fs(2, 2)],
+    };
+    let mut protos = vec![];
+    let mut body = vec![];
+    for r in 0..2 {
+        for (k, f) in fields.iter().enumerate() {
+            let w = f.len as usize;
+            let mut val = if f.ty == 4 { vec![[6u8, 17][r]] } else { crate::alphabet::rec_value(r, k, w) };
+            if r == 1 && *f == target {
+                val = value.clone();
+            }
+            if f.ty == 4 {
+                protos.push(val[0]);
+            }
+            body.extend(val);
+        }
+    }
+    let calls = if ipfix {
+        vec![ipfix_message(&IpfixMsg::new(vec![IpfixSet::Tpl(vec![IpfixTpl { id: 256, fields }], 0), IpfixSet::Data(256, body)]))]
+    } else {
+        vec![v9_packet(&V9Pkt::new(vec![V9Set::Tpl(vec![V9Tpl { id: 256, fields }], 0), V9Set::Data(256, body)]))]
+    };
+    Some((calls, protos))
+}
+
 pub fn spaces(tier: &str) -> Vec<Box<dyn Space>> {
     let thorough = tier == "thorough";
     let mut v: Vec<Box<dyn Space>> = vec![];
@@ -531,6 +577,22 @@ pub fn spaces(tier: &str) -> Vec<Box<dyn Space>> {
             move |i| super::stream::desc_calls(&boundary_stream(ipfix, i).0),
         ));
     }
+    // every value of the class menus (range thresholds, special-purpose addresses, all 256 protocol numbers) in every
+    // projected field, in three template shapes
+    for ipfix in [false, true] {
+        v.push(space(
+            &format!("{}-value-menu-of-every-projected-field x 3 template shapes", if ipfix { "ipfix" } else { "v9" }),
+            11 * MENU_MAX * 3,
+            move |i| match value_stream(ipfix, i) {
+                Some((calls, protos)) => judge_stream(&calls, &protos),
+                None => Eval { key: 0, transitions: 0, issues: vec![], tags: vec![] },
+            },
+            move |i| match value_stream(ipfix, i) {
+                Some((calls, _)) => super::stream::desc_calls(&calls),
+                None => json!({"unused_index": i}),
+            },
+        ));
+    }
     // flattening helper over chained buffers
     let maxlen = if thorough { 5 } else { 3 };
     let nl = list_count(menu::SELF_DELIMITING + 1, maxlen);
@@ -554,7 +616,7 @@ pub fn run(tier: &str) -> i32 {
         prop: "C13".into(),
         tier: tier.into(),
         level: "model_checking",
-        rule: "V5/V7: walking byte over a 3-record packet and every materialised record count; V9 and IPFIX: templates made of EVERY subset of the projected fields (source/destination address each in {absent, IPv4, IPv6, both}, ports, protocol, first, last, two MACs = 2048 subsets) in three orders with two unrelated fields, 1..=3 records, 1..=2 data sets; flattening helper over all chains of <=3 (thorough 5) packets of a 18-packet menu x 4 prior cache states. Oracle: projection computed from the reference decode (one flow per record, in order, member = decoded field, None iff the template lacks it). Distinct by the hash of the returned flows".into(),
+        rule: "V5/V7: walking byte over a 3-record packet and every materialised record count; V9 and IPFIX: templates made of EVERY subset of the projected fields (source/destination address each in {absent, IPv4, IPv6, both}, ports, protocol, first, last, two MACs = 2048 subsets) in three orders with two unrelated fields, 1..=3 records, 1..=2 data sets; every value of the class value menus (range thresholds, special-purpose addresses, all 256 protocol numbers) in every projected field in three template shapes; flattening helper over all chains of <=3 (thorough 5) packets of a 18-packet menu x 4 prior cache states. Oracle: projection computed from the reference decode (one flow per record, in order, member = decoded field, None iff the template lacks it). Distinct by the hash of the returned flows".into(),
         bounds: json!({"subsets": 2048, "orders": 3, "records": "1..=3", "data_sets": "1..=2"}),
         assumptions: vec!["when a record carries both an IPv4 and an IPv6 address of the same direction the IPv4 one is projected".into(), "V5/V7 protocol name = the name the decoded record carries (its correctness is C03's subject)".into()],
         trusted_base: vec!["refmodel.rs".into(), "c13::project".into()],
